@@ -138,6 +138,7 @@ func runRegObjHistory(r *h.Report, d *h.Driver, ops []string, st *regoStats) {
 		d.Ask("reset")
 	}
 	typeOf := map[string]int{"1/1": 1, "1/2": 2, "2/1": 1}
+	reann := map[string]bool{} // SPEC bookkeeping: the client entity of a registered pair was announced again since
 	var done []string
 	for _, op := range ops {
 		f := strings.Fields(op)
@@ -164,6 +165,8 @@ func runRegObjHistory(r *h.Report, d *h.Driver, ops []string, st *regoStats) {
 			// SPEC (C08); every request of this harness meets the role / type / existence conditions
 			if f[0] == "sub" {
 				switch {
+				case impl == "ok" && had > 0 && reann[pair]:
+					r.SpecFail("C08/registered-pair-granted-again-after-reannouncement", done, fmt.Sprintf("%s granted although the pair is subscribed already (its client entity was announced again in between): %s", op, regoJoin(pre)))
 				case impl == "ok" && had > 0:
 					r.SpecFail("C08/registered-pair-granted-again", done, fmt.Sprintf("%s granted although the pair is subscribed already: %s", op, regoJoin(pre)))
 				case impl != "ok" && had == 0:
@@ -173,7 +176,10 @@ func runRegObjHistory(r *h.Report, d *h.Driver, ops []string, st *regoStats) {
 					r.SpecFail("C08/subscribe-registry-effect", done, fmt.Sprintf("%s answered %s: %s -> %s", op, impl, regoJoin(pre), regoJoin(post)))
 				}
 				st.subAll++
-				st.subOk += h.B2i(impl == "ok")
+				st.subOk += h.B2i(had == 0) // floors measure the generator: what the SPEC says should happen
+				if impl == "ok" && had == 0 {
+					reann[pair] = false
+				}
 			} else {
 				if (impl == "ok") != (had > 0) {
 					r.SpecFail("C08/delete-result", done, fmt.Sprintf("%s answered %s: %s", op, impl, regoJoin(pre)))
@@ -220,6 +226,11 @@ func runRegObjHistory(r *h.Report, d *h.Driver, ops []string, st *regoStats) {
 				Payload: model.PayloadType{Cmd: []model.CmdType{{Function: util.Ptr(model.FunctionTypeNodeManagementDetailedDiscoveryData), Filter: []model.FilterType{*model.NewFilterTypePartial()}, NodeManagementDetailedDiscoveryData: d2}}}})
 			impl, kind = "done", "reannounce"
 			st.reann++
+			for pr := range regoPairs(pre) {
+				if strings.HasPrefix(pr[strings.Index(pr, "<-")+2:], fmt.Sprintf("%d/", e)) {
+					reann[pr] = true
+				}
+			}
 			if strings.Join(w.registry(), ",") != strings.Join(pre, ",") {
 				r.SpecFail("C08/registry-changed-by-announcement", done, op)
 			}
@@ -278,7 +289,7 @@ func runRegObjHistory(r *h.Report, d *h.Driver, ops []string, st *regoStats) {
 				}
 			}
 			st.fanAll++
-			st.fanNon += h.B2i(len(ts) > 0)
+			st.fanNon += h.B2i(len(want) > 0)
 			kind = "notify"
 			if len(ts) > 0 {
 				kind = "notify:fanout"
@@ -333,7 +344,7 @@ func TestRegObj(t *testing.T) {
 	// probe: is the duplicate check still by object?
 	q := h.Quiet()
 	runRegObjHistory(q, nil, regoWitness, &regoStats{})
-	byObject := q.HasSpecFail("C08/registered-pair-granted-again")
+	byObject := q.HasSpecFail("C08/registered-pair-granted-again-after-reannouncement")
 	r.SetFlag("dupCheckByObject", byObject, regoWitness, "AddSubscription compares the feature objects with reflect.DeepEqual")
 	if a := d.Ask(fmt.Sprintf("cfg %d", h.B2i(byObject))); a != "cfg" {
 		panic("drv_regobj: " + a)
@@ -359,9 +370,11 @@ func TestRegObj(t *testing.T) {
 	for i := 0; i < hist; i++ {
 		run(genRegObjHistory(rng, 20+rng.Intn(20)))
 	}
-	r.Floor("granted subscriptions", st.subOk, st.subAll, 0.15)
-	r.Floor("non-empty fan-outs", st.fanNon, st.fanAll, 0.30)
+	if regClean(r, map[string]bool{"C08/registered-pair-granted-again-after-reannouncement": true, "C08/twice-registered-pair-notified-twice": true}) {
+		r.Floor("subscription requests the SPEC grants", st.subOk, st.subAll, 0.15)
+		r.Floor("data changes with subscribers", st.fanNon, st.fanAll, 0.30)
+	}
 	r.Info["double_notification_steps"] = st.dbl
 	regShrinkReport(r, func(q *h.Report, ops []string) { runRegObjHistory(q, d, ops, &regoStats{}) },
-		map[string]bool{"C08/registered-pair-granted-again": true, "C08/twice-registered-pair-notified-twice": true}, false)
+		map[string]bool{"C08/registered-pair-granted-again-after-reannouncement": true, "C08/twice-registered-pair-notified-twice": true}, false)
 }
